@@ -17,12 +17,12 @@ P = {
          'Rounding is not covered by the theorems (ideal arithmetic); the d-dimensional continuous statement is about iterated integrals.'),
  'C02': ('Law-generic theorems (every numeric type): an iteration of N calls yields exactly N integrand events, calls = N, the main cell is the translated accumulate folded over the '
          'sanitised (non-zero, finite) products in call order with nz/fin the two filter lengths; VEGAS / multi-channel adjustment data equal explicit per-bin / per-channel fold '
-         'specifications; over the reals Kahan is exact and value / variance / error are the documented formulas (2 <= N < 2^64); IEEE supplement Properties_C02f: bin indices are in range, so the per-bin reading of the VEGAS data is unconditional.',
+         'specifications; over the reals Kahan is exact and value / variance / error are the documented formulas (2 <= N < 2^64); IEEE supplement Properties_C02f: bin indices are in range, so the per-bin reading of the VEGAS data is unconditional; Properties_C02w: every evaluation counter is declared with 64 bits (table regenerated from the declarations by the translator), so no reachable count wraps - when it breaks, one iteration with more evaluations than the narrowed counter holds is run.',
          'induction over calls on the executed iteration model + bit-exact correspondence of every accessor',
          'Variance formula needs N >= 2 (the code divides by N-1); floating-point accuracy is C14\'s subject.'),
  'C03': ('Theorems on the run model and the text codec: runs compose (run (l1 ++ l2) = run l2 after run l1 when the callback did not stop), reload (deser after ser) yields an equivalent '
          'checkpoint, runs respect that equivalence, hence for every list of interruption points the final text equals the uninterrupted one (induction over the list of pieces, all '
-         'compositions, all n). Real runs with every cut set (n <= 4 quick) are compared with the model and with each other; the nine standard engines by a C++-only differential.',
+         'compositions, all n). Real runs with every cut set (n <= 4 quick) are compared with the model and with each other; the nine standard engines, and a hostile process environment (LC_ALL naming a missing locale, global C++ locale with a decimal comma; the file written by the built-in callback is loaded and resumed), by C++-only differentials.',
          'induction over interruption lists on the run + codec model; exhaustive cut-set correspondence',
          'User callbacks must respect checkpoint-text equality (proved for the built-in one); decimal round trip of numbers is C05\'s theorem; std engines are assumed to round-trip (measured).'),
  'C04': ('Lock-step model of the three MPI drivers (all ranks side by side, explicit reduction permutation, hang = a rank waiting in a collective another never enters): theorems that '
@@ -37,7 +37,7 @@ P = {
          'Flocq real-analysis proof of the radix conversion + structural induction over the codec model; token-exact correspondence',
          'glibc printf/strtod correct rounding and the engines\' own operator<< / >> are assumptions (checked on every number of every text / by a C++-only round trip).'),
  'C06': ('Law-generic twin theorems: one accumulator step, one iteration and a whole multi-iteration run (all three integrators) under f and under its zeroed twin agree on everything '
-         'but the non-zero counter; non-finite fills change no bin; IEEE supplement Properties_C06f: reported sums and value finite under an explicit no-overflow hypothesis. Found and repaired a defect (poisoned-only iteration made the combined result NaN). Paired real runs are compared with the model.',
+         'but the non-zero counter; non-finite fills change no bin; IEEE supplement Properties_C06f: reported sums and value finite under an explicit no-overflow hypothesis. Found and repaired a defect (poisoned-only iteration made the combined result NaN). Properties_C06w: the counters of non-zero / finite evaluations are 64-bit as declared (regenerated table). Paired real runs (serial and on the MPI shim) are compared with the model; a float iteration above 2^24 evaluations runs under real MPI.',
          'simulation relation (equal up to nz counters) proved by induction over calls and iterations; paired-run correspondence',
          'Channel maps must honour their documented contract; overflow of finite sums is not excluded by proof.'),
  'C07': ('Real-arithmetic theorems about the model\'s refine_pdf / icdf: no out-of-bounds scan, endpoints 0 and 1, non-decreasing (strict stays strict), equal share of importance per new bin, '
@@ -54,7 +54,7 @@ P = {
          'order-law-generic bisection proof + Flocq monotonicity proof; boundary-exhaustive correspondence',
          'libstdc++ upper_bound / partial_sum / generate_canonical are modelled (validated by the tie).'),
  'C10': ('Law-generic theorems: an iteration of N calls advances the generator by exactly N x d (N x (d+1) multi-channel) canonical numbers whatever the integrand returns; the stored generator is '
-         'the advanced one; the translated usage predictor equals ceil(b / log2 R); supplement Properties_C10m: the same stored positions on every rank of the lock-step MPI model. Real engines (nine standard + synthetic) are measured against the predictor by a C++-only check.',
+         'the advanced one; the translated usage predictor equals ceil(b / log2 R); supplement Properties_C10m: the same stored positions on every rank of the lock-step MPI model. Real engines (nine standard + synthetic) are measured against the predictor by a C++-only check; the MPI drivers run under real mpirun with instantiations of std::linear_congruential_engine (increment != 0, odd moduli) against the serial stored generator.',
          'induction over calls on the iteration model + translated predictor arithmetic + draw counting on real engines',
          'floor(log2 R) agreement between hep-mc and libstdc++ is measured, not proved.'),
  'C11': ('Real-arithmetic theorems about the model\'s fill1d / fill2d: a finite value goes to flat index ky*bx+kx iff the coordinate lies in that half-open bin, to no bin outside; mid-points enumerate the '
@@ -66,7 +66,7 @@ P = {
          'induction over the calls list on the run model + IEEE comparison lemmas; scripted-callback correspondence',
          ''),
  'C13': ('Real-arithmetic theorems about the model\'s combiners (repaired code): formulas, between min and max, error <= each S_i, permutation invariance, skipping of results without finite non-zero calls, '
-         'equal weighting = mean and standard error, chi^2 laws, bin-wise combination of distributions for every numeric type.',
+         'equal weighting = mean and standard error, chi^2 laws, bin-wise combination of distributions for every numeric type; Properties_C13w: the summed counters are 64-bit as declared (results with counters beyond 2^32 are part of the comparison).',
          'algebra over the reals on the executed helper model + bit-exact correspondence',
          'Guards N_i >= 2, S_i^2 > 0 are in the statements; floating-point order dependence is reproduced by the tie, not bounded by proof.'),
  'C14': ('Kahan error bound |sum - exact| <= (7u + 20 n u^2) sum|x| proved in the standard rounding model and instantiated for every IEEE format with prec >= 6 via Flocq (no overflow derived from a '
@@ -85,15 +85,15 @@ P = {
          'induction over calls on event traces of the iteration model; event-log correspondence incl. buffer identity',
          'Object lifetime / aliasing of the point classes is visible only to the harness checks (buffer identity events).'),
  'C18': ('File-system model theorems: for any text, any chunking into writes and any crash point (between operations or inside a write) the final name holds the previous or the complete new text; whole runs; '
-         'the in-place variant is refuted; composed with the codec and resume theorems (Properties_C18r): in every crash state the file is untouched or holds the text of a checkpoint of the run, which loads, and running the remaining calls reproduces the final text. The real system calls are recorded and compared with the model\'s operation list; the real process is killed at every operation and inside writes, the file inspected and the run resumed.',
-         'crash-prefix invariant over an operation-list model + LD_PRELOAD system-call correspondence + kill enumeration',
+         'the in-place variant is refuted; composed with the codec and resume theorems (Properties_C18r): in every crash state the file is untouched or holds the text of a checkpoint of the run, which loads, and running the remaining calls reproduces the final text; fault sequences (Properties_C18f): any sequence of invocations that complete, whose open of the temporary fails, or whose write / close / rename fails after arbitrary pieces, killed anywhere, leaves the text of the last completed invocation, and an in-place fallback is refuted. The real system calls are recorded and compared with the model\'s operation list; the real process is killed at every operation and inside writes, system calls are made to fail (open / write / close / rename) and the process killed afterwards, the file inspected and the run resumed.',
+         'crash-prefix invariant over an operation-list model with fault outcomes + LD_PRELOAD system-call correspondence + kill and fault enumeration',
          'POSIX rename atomicity and kill semantics are assumptions; no power-loss model.'),
  'C19': ('Law-generic theorems: iteration k+1 samples with refine(state_k, adjustment_k) under the checkpoint\'s parameters, result k records the state its points were drawn with, iteration 0 uses the user\'s '
          '(normalised) state or the uniform default; every event of an iteration is a point of that recorded state; supplement Properties_C19m: the same threading on every rank of the MPI drivers.',
          'induction over the run model + bit-exact correspondence of states and points (serial, resumed)',
          ''),
  'C20': ('Theorems: the drivers depend on the callback only through its answers, which are mode-free; index safety of the summary printers for every weight vector (sorted channel permutation, all printed indices in range, '
-         'ranges cover exactly the minimal-weight channels, pairwise maximum defined); supplement Properties_C20m: MPI drivers and mpi_callback; real runs in all four modes are compared with each other and with the model, summary skeletons parsed from the real output.',
+         'ranges cover exactly the minimal-weight channels, pairwise maximum defined); supplement Properties_C20m: MPI drivers and mpi_callback; real runs in all four modes are compared with each other and with the model, summary skeletons parsed from the real output; the four modes are also run under a hostile process environment (missing locale named by LC_ALL, decimal-comma global C++ locale).',
          'structural proofs about the callback / summary model + four-mode correspondence and summary skeleton comparison',
          'Mode independence of the decision is true by construction of the model; its substance is carried by the correspondence.'),
 }
